@@ -157,9 +157,9 @@ func Harness_C04_chains() {
 //
 //verif:opt maxpaths=20000 reach=accepted,rejected wall=600
 func Harness_C04_decode() {
-	n := 17 + vChoice("leaf-len", 4)
+	n := 17 + vChoice("leaf-len", 4+3*vTier())
 	b := vBytes("leaf", n)
-	ed := vBytes("extra", 3+vChoice("extra-len", 4))
+	ed := vBytes("extra", 3+vChoice("extra-len", 4+3*vTier()))
 	rle, err := RawLogEntryFromLeaf(7, &LeafEntry{LeafInput: b, ExtraData: ed})
 	if err != nil {
 		vReach("rejected")
